@@ -182,3 +182,89 @@ Proof.
   apply RawM_of; [apply P|apply TC|exact TR].
 Qed.
 End C09.
+
+(* ---------- the initial state ---------- *)
+Lemma KP_kernel0 : forall f, KP (kernel0 f).
+Proof.
+  intros f. split; [intros fd H; exfalso; apply H; reflexivity|]. split; [intros fd v H; discriminate H|cbn; lia].
+Qed.
+
+Lemma KP_fold_user : forall l k, Forall (fun i => 0 <= i < 16) l -> KP k -> KP (fold_left k_user_fd l k).
+Proof.
+  induction l as [|i l IH]; intros k F K; cbn [fold_left]; [exact K|]. inversion F; subst.
+  apply IH; [assumption|]. apply (CNT_user_fd k i); assumption.
+Qed.
+
+Lemma KXP_core0 : forall sc, KP (kern (core0 sc)) /\ KX (kern (core0 sc)).
+Proof.
+  intros sc. unfold core0.
+  set (k0 := fold_left k_user_fd (zseq 0 16) (kernel0 (sc_faults sc))).
+  assert (P0 : KP k0).
+  { apply KP_fold_user; [|apply KP_kernel0]. apply Forall_forall. intros x H. apply In_zseq in H. lia. }
+  assert (X0 : KX k0).
+  { assert (KF : forall l k, KX k -> KX (fold_left k_user_fd l k)).
+    { induction l as [|i l IH]; intros k K; cbn [fold_left]; [exact K|apply IH; apply KX_user_fd; exact K]. }
+    apply KF. split; [split; [cbn; lia|intros i v _ H; discriminate H]|intros e []]. }
+  assert (G : forall efd k, (if (sc_backend sc =? M_ET) || (sc_backend sc =? M_EP) then k_epoll_create k0 else (-1, k0)) = (efd, k) ->
+              KP k /\ KX k).
+  { intros efd k E. destruct ((sc_backend sc =? M_ET) || (sc_backend sc =? M_EP)); [|inversion E; subst; split; assumption].
+    unfold k_epoll_create in E. pose proof (CNT_alloc k0 K_EPOLL ltac:(discriminate) ltac:(discriminate) P0) as (P1 & _).
+    destruct X0 as [V EE]. pose proof (KV_alloc k0 K_EPOLL V) as [V1 _].
+    destruct (k_alloc k0 K_EPOLL) as [a b] eqn:A. inversion E; subst. cbn [snd] in *. split; [exact P1|].
+    split; [exact V1|]. unfold k_alloc in A. inversion A; subst. exact EE. }
+  destruct (if (sc_backend sc =? M_ET) || (sc_backend sc =? M_EP) then k_epoll_create k0 else (-1, k0)) as [efd k] eqn:E.
+  exact (G efd k eq_refl).
+Qed.
+
+Lemma RK_core0 : forall sc, RK (core0 sc).
+Proof.
+  intros sc. destruct (KXP_core0 sc) as [P X]. split; [|exact X].
+  assert (RW : rw_reg (core0 sc) = fun _ => false).
+  { unfold core0. destruct (if (sc_backend sc =? M_ET) || (sc_backend sc =? M_EP) then _ else _) as [efd k]. reflexivity. }
+  assert (M : mst (core0 sc) = mon0).
+  { unfold core0. destruct (if (sc_backend sc =? M_ET) || (sc_backend sc =? M_EP) then _ else _) as [efd k]. reflexivity. }
+  constructor; [exact P| |].
+  - intros j _ A. rewrite M in A. discriminate A.
+  - intros j _ A. rewrite RW in A. discriminate A.
+Qed.
+
+(* ---------- whole runs ---------- *)
+Theorem core_raw_codes : forall sc, wf_scenario sc ->
+  forall c, In c [901; 902] -> ~ In c (mon_fails (run_scenario sc)).
+Proof.
+  intros sc WF c Hc.
+  pose proof (@core_G1 RA_on sc WF CoreInv.do_action_ok RK) as G.
+  apply G.
+  - intros s Jh IT RKs. apply RawPR_of; [exact WF|exact Jh|apply (proj1 (proj1 IT))|exact RKs].
+  - intros s s' Jh IT [R K] E. destruct IT as [[IW Qt] _].
+    pose proof (run_timers_QI sc WF s IW R K ltac:(split; [apply (q_batch _ Qt)|split; [apply (q_cur _ Qt)|apply (q_evb _ Qt)]])) as Q.
+    rewrite E in Q. cbn [QI ARes] in Q. destruct Q as (_ & A & B). split; assumption.
+  - intros s s' Jh IT [R K] E. destruct IT as [[IW Qt] _].
+    pose proof (run_tasks_QI sc WF s IW R K ltac:(split; [apply (q_batch _ Qt)|split; [apply (q_cur _ Qt)|apply (q_evb _ Qt)]])) as Q.
+    rewrite E in Q. cbn [QI ARes] in Q. destruct Q as (_ & A & B). split; assumption.
+  - intros s s' Jh IT RKs E.
+    pose proof (poll_and_run_PQ sc WF s (AbsOf s) (proj1 (InvT_LoopInv s) IT) RKs) as Q.
+    rewrite E in Q. exact Q.
+  - apply RK_core0.
+  - intros s l s' _ IW [R K] W E. pose proof (run_acts_QI l s IW R K W) as Q.
+    rewrite E in Q. cbn [QI ARes] in Q. destruct Q as (_ & A & B). split; assumption.
+  - intros s RKs. apply (RK_same (emit s TMain)); [apply RK_emit; [exact RKs|exact I]|reflexivity..].
+  - right. split; [exact I|exact Hc].
+Qed.
+
+Theorem core_mon_C09 : forall sc, wf_scenario sc -> mon_C09 (run_scenario sc) = true.
+Proof.
+  intros sc WF. unfold mon_C09. apply andb_true_iff. split.
+  - unfold none_in. apply negb_true_iff.
+    destruct (existsb (in_range 900 1000) (mon_fails (run_scenario sc))) eqn:E; [|reflexivity].
+    apply existsb_exists in E. destruct E as (c & H & R). exfalso.
+    unfold in_range in R. apply andb_true_iff in R. destruct R as [R1 R2]. apply Z.leb_le in R1. apply Z.ltb_lt in R2.
+    pose proof (core_raw_codes sc WF c) as TC.
+    destruct (fails_codes _ _ H) as (e & CE).
+    destruct e; cbn [codes_of] in CE; try (destruct n); cbn [In] in CE;
+      repeat (destruct CE as [<-|CE]; [try lia; try (apply TC; [cbn; tauto|exact H])|]); try contradiction.
+  - apply negb_true_iff. destruct (mem_z 105 (mon_fails (run_scenario sc))) eqn:E; [|reflexivity].
+    apply mem_z_In in E. pose proof (core_mon_good sc WF 105 E) as K. vm_compute in K. discriminate K.
+Qed.
+
+Print Assumptions core_mon_C09.
